@@ -2556,6 +2556,18 @@ pin_proto_parts(struct rrulsp_s *restrict rr, echs_instant_t from)
 	return;
 }
 
+static void
+zone_until(struct rrulsp_s *restrict rr, echs_tzob_t zon)
+{
+/* UNTIL of a zoned event is in UTC, the fillers compare it with
+ * wall-clock candidates */
+	if (zon && rr->until.u < -1ULL &&
+	    !echs_instant_all_day_p(rr->until)) {
+		rr->until = echs_instant_loc(rr->until, zon);
+	}
+	return;
+}
+
 static echs_evstrm_t
 __make_evrrul(echs_event_t e, rrulsp_t rr, size_t nr)
 {
@@ -2577,12 +2589,16 @@ __make_evrrul(echs_event_t e, rrulsp_t rr, size_t nr)
 	this->cal = echs_instant_scale(e.from);
 	e.from = echs_instant_rescale(e.from, SCALE_GREGORIAN);
 	this->zon = zon = echs_instant_tzob(e.from);
-	this->e = e = echs_event_to_utc(e);
-	this->pof = echs_instant_tzof(e.from, zon);
+	/* rules are expanded in the zone's wall-clock time, keep the proto
+	 * instant that way and convert what the fillers deliver */
+	e.from = echs_instant_detach_tzob(e.from);
+	this->e = e;
+	this->pof = 0;
 
 	/* bang the first one */
 	this->rrul = rr[0U];
 	pin_proto_parts(&this->rrul, e.from);
+	zone_until(&this->rrul, zon);
 	this->seq = 0U;
 	this->ref = nr;
 	that[0U] = this;
@@ -2591,6 +2607,7 @@ __make_evrrul(echs_event_t e, rrulsp_t rr, size_t nr)
 		this[i] = this[0U];
 		this[i].rrul = rr[i];
 		pin_proto_parts(&this[i].rrul, e.from);
+		zone_until(&this[i].rrul, zon);
 		this[i].seq = i;
 		that[i] = this + i;
 	}
@@ -2704,13 +2721,9 @@ again:
 		strm->cch[i] = echs_instant_rescale(strm->cch[i], strm->cal);
 	}
 	/* utcify them all */
-	for (size_t i = 0U; i < strm->ncch; i++) {
-		int eof = echs_instant_tzof(strm->cch[i], strm->zon);
-
-		if (UNLIKELY(eof != strm->pof)) {
-			/* discrepancy, convert defo */
-			strm->cch[i] = echs_tzob_shift(
-				strm->cch[i], eof, strm->pof);
+	if (strm->zon) {
+		for (size_t i = 0U; i < strm->ncch; i++) {
+			strm->cch[i] = echs_instant_utc(strm->cch[i], strm->zon);
 		}
 	}
 	/* otherwise sort the array, just in case */
@@ -2774,8 +2787,14 @@ send_evrrul(int whither, echs_const_evstrm_t s)
 	if (!this->seq) {
 		echs_event_t e = this->e;
 
+		/* find the earliest of the streams' next instants */
+		e.from = echs_nul_instant();
 		for (size_t i = 0U; i < this->ref; i++) {
-			echs_instant_t cand = this[i].e.from;
+			/* the proto is in wall-clock time, the cache in UTC */
+			echs_instant_t cand = !this[i].zon ||
+				echs_nul_instant_p(this[i].e.from)
+				? this[i].e.from
+				: echs_instant_utc(this[i].e.from, this[i].zon);
 
 			if (UNLIKELY(this[i].rdi >= this[i].ncch)) {
 				/* end of stream innit or we need to refill
@@ -2797,6 +2816,15 @@ send_evrrul(int whither, echs_const_evstrm_t s)
 		     echs_nul_instant_p(this->e.from))) {
 		/* this rule has run its course, writing it out would
 		 * start it all over at whatever DTSTART the event gets */
+		return;
+	}
+	if (this->zon && this->rrul.until.u < -1ULL &&
+	    !echs_instant_all_day_p(this->rrul.until)) {
+		/* back to UTC, see zone_until() */
+		struct rrulsp_s rr = this->rrul;
+
+		rr.until = echs_instant_utc(rr.until, this->zon);
+		send_rrul(whither, &rr, this->ncch - this->rdi);
 		return;
 	}
 	send_rrul(whither, &this->rrul, this->ncch - this->rdi);
